@@ -164,18 +164,28 @@ def d_ctx(num, content):
     return t + d_len(len(content)) + content
 
 
-def key_description(challenge, sw_all=False, tee_all=False, origin=0, purpose=(2,), tee_extra=b"", sw_origin=None, sw_purpose=None, versions=(3, 4), levels=(1, 1)):
-    def alist(all_apps, origin, purpose):
-        items = b""
+# further authorization tags of the Keymaster / KeyMint AuthorizationList a genuine key may carry (tag -> DER value); none of them is among the four statements the
+# WebAuthn android-key procedure reads (challenge, allApplications, origin, purpose)
+AK_TAGS = {2: d_int(3), 3: d_int(256), 5: d_tlv(0x31, d_int(4)), 10: d_int(1), 303: d_tlv(0x05, b""), 400: d_int(0), 503: d_tlv(0x05, b""), 504: d_int(2), 505: d_int(300), 506: d_tlv(0x05, b""),
+           507: d_tlv(0x05, b""), 508: d_tlv(0x05, b""), 509: d_tlv(0x05, b""), 701: d_int(1600000000000), 703: d_tlv(0x05, b""), 705: d_int(110000), 706: d_int(202109), 709: d_tlv(0x04, b"app"),
+           718: d_int(20210905), 719: d_int(20210905)}
+AK_TAG_SETS = [(), (503,), (504, 505), (503, 506), (2, 3, 5, 10), (507, 508, 509), (701, 705, 706), (303, 400, 703), (503, 504, 505), (709, 718, 719), (2, 3, 5, 10, 503, 701, 705, 706)]
+
+
+def key_description(challenge, sw_all=False, tee_all=False, origin=0, purpose=(2,), tee_extra=b"", sw_origin=None, sw_purpose=None, versions=(3, 4), levels=(1, 1), tee_tags=(), sw_tags=()):
+    def alist(all_apps, origin, purpose, tags):
+        members = {}
         if purpose is not None:
-            items += d_ctx(1, d_tlv(0x31, b"".join(d_int(p) for p in purpose)))
+            members[1] = d_tlv(0x31, b"".join(d_int(p) for p in purpose))
         if all_apps:
-            items += d_ctx(600, d_tlv(0x05, b""))
+            members[600] = d_tlv(0x05, b"")
         if origin is not None:
-            items += d_ctx(702, d_int(origin))
-        return d_tlv(0x30, items)
+            members[702] = d_int(origin)
+        for t in tags:
+            members.setdefault(t, AK_TAGS[t])
+        return d_tlv(0x30, b"".join(d_ctx(t, members[t]) for t in sorted(members)))
     body = d_int(versions[0]) + d_int(levels[0], 0x0A) + d_int(versions[1]) + d_int(levels[1], 0x0A) + d_tlv(0x04, challenge) + d_tlv(0x04, b"") \
-        + alist(sw_all, sw_origin, sw_purpose) + alist(tee_all, origin, purpose)
+        + alist(sw_all, sw_origin, sw_purpose, sw_tags) + alist(tee_all, origin, purpose, tee_tags)
     return d_tlv(0x30, body)
 
 
@@ -407,7 +417,7 @@ def build(s):
     elif fmt == "android-key":
         kd = key_description(k.get("ak_challenge", signed_cdh), sw_all=k.get("ak_sw_all", False), tee_all=k.get("ak_tee_all", False),
                              origin=k.get("ak_origin", 0), purpose=k.get("ak_purpose", (2,)), sw_origin=k.get("ak_sw_origin"), sw_purpose=k.get("ak_sw_purpose"),
-                             versions=k.get("ak_versions", (3, 4)), levels=k.get("ak_levels", (1, 1)))
+                             versions=k.get("ak_versions", (3, 4)), levels=k.get("ak_levels", (1, 1)), tee_tags=k.get("ak_tee_tags", ()), sw_tags=k.get("ak_sw_tags", ()))
         exts = [] if k.get("ak_no_ext") else [(x509.UnrecognizedExtension(ObjectIdentifier("1.3.6.1.4.1.11129.2.1.17"), kd), False)]
         leaf_pub = k.get("ak_leaf_cred", cred).pk
         leaf = pki.leaf(name("Forged Android Keystore Key"), leaf_pub, nb=leaf_nb, na=leaf_na, exts=exts, signer_key=k.get("leaf_signer"))
